@@ -964,7 +964,7 @@ func (x *run) worldRefs() string {
 }
 
 func (x *run) quiesce() {
-	if !x.on("C01", "C03", "C04", "C10", "C11", "C12") {
+	if !x.on("C01", "C03", "C04", "C10", "C11", "C12", "C15") {
 		return
 	}
 	// faults stop
@@ -1031,6 +1031,10 @@ func (x *run) quiesce() {
 }
 
 func (x *run) finalChecks() {
+	if x.on("C15") {
+		x.fsckAll()
+		return
+	}
 	if x.on("C11", "C12") {
 		for _, rs := range x.reps {
 			if rs.alive && rs.r.Cache != nil {
@@ -1323,6 +1327,11 @@ func (e *Engine) Describe(prop string) sim.PropInfo {
 	case "C09":
 		info.Rule = "plans biased to identity mutation (name, email, login, avatar, metadata, invalid values) on any replica that knows the identity, with push/pull in between, so that all (common prefix, local suffix, remote suffix) classes arise; each identity merge is judged against the chains decoded by the reference decoder; non-trivial = an identity merge whose expected outcome is updated or refused-diverged happened; distinct = distinct event-log hash"
 		info.Kinds = []string{"id-changed", "history-not-append-only", "ff-not-applied", "ff-status-wrong", "nothing-case-changed-local", "diverged-accepted", "diverged-changed-local", "invalid-identity-accepted"}
+	case "C15":
+		info.Rule = "every replica is a host repository prepared with stock git (two commits, a branch, a lightweight and an annotated tag, HEAD on a branch or detached, a staged and an unstaged change, untracked files, unrelated configuration keys); sessions mix library actions (entity and cache API) with commands of the real cobra tree run in-process (bug new/comment/title/status/label/rm/show/list, user new, push, pull) and bridge/credential configuration through the public API; after EVERY step every ref outside git-bug's namespaces (loose and packed), HEAD, the index file, every working-tree file and every configuration key outside git-bug.* must be unchanged and every new file under .git must lie in git-bug's places; at the end stock `git fsck --strict --no-dangling` and `git for-each-ref` run on every replica and hub (thorough: `git clone --mirror` + `git gc` + fsck); non-trivial = at least one step compared; distinct = distinct event-log hash"
+		info.Kinds = []string{"foreign-ref-changed", "head-changed", "index-changed", "worktree-changed", "foreign-config-changed", "file-outside-namespace", "fsck-failed", "stock-git-transfer-failed"}
+		info.Real = append(info.Real, "commands (cobra tree, in-process)", "stock git 2.39 as external oracle (fsck, for-each-ref, clone --mirror, gc) invoked synchronously at fixed points")
+		info.Assumptions = append(info.Assumptions, "the interactive `bridge new` needs the network; its configuration and credential are written through repository.Config and auth.Store instead", "interactive commands (termui, webui) are not run")
 	case "C14":
 		info.Rule = "replicas with 0-3 configured remotes (1-3 hubs; replica 0 holds any subset of them), any subset of which hold the entity; removal of a bug (entity API, cache API by prefix, CLI `bug rm` run in-process as its own simulated process) or of an identity at any point of an edit/push/pull history; then: repeat the removal, merge every remote again without fetching, close and reopen, rebuild a cache from a copy; a `wipe` through the CLI ends some runs; oracle: all refs of the entity gone, every other ref, .git/config and every file of .git/git-bug outside cache/index byte-identical, entity not found by id, prefix, query or search; non-trivial = at least one successful removal or wipe; distinct = distinct event-log hash"
 		info.Kinds = []string{"ref-survived", "tracking-ref-survived", "cache-entry-survived", "index-doc-survived", "frame-broken", "still-resolvable", "resurrected-without-fetch", "second-removal-harmful", "wipe-left-residue"}
